@@ -91,6 +91,9 @@ type Opts struct {
 	Gossip         mesh.Gossip
 	MaxMessageSize int
 	ReadRate       int
+	// MeshPort > 0: the real mesh router of the swarm is started on 127.0.0.1:MeshPort (Swarm.Listen, as Service.Listen does)
+	// instead of a substituted gossip transport; peers are joined with Broker.Join.
+	MeshPort int
 }
 
 type Broker struct {
@@ -166,6 +169,10 @@ func NewBroker(o Opts) (*Broker, error) {
 		AdvertiseAddr: ":4001",
 		Directory:     b.Dir,
 	}
+	if o.MeshPort > 0 {
+		conf.Cluster.ListenAddr = fmt.Sprintf("127.0.0.1:%d", o.MeshPort)
+		conf.Cluster.AdvertiseAddr = fmt.Sprintf("127.0.0.1:%d", o.MeshPort)
+	}
 	switch o.Storage {
 	case "", "inmemory":
 		conf.Storage = &cfg.ProviderConfig{Provider: "inmemory"}
@@ -188,6 +195,11 @@ func NewBroker(o Opts) (*Broker, error) {
 		return nil, err
 	}
 	b.Svc = svc
+	if o.MeshPort > 0 {
+		svc.VerifSwarm().Listen(ctx) // starts the router and the periodic update, as Service.Listen does
+		svc.VerifStartSurveyor()
+		return b, nil
+	}
 	b.Gossip = o.Gossip
 	if b.Gossip == nil {
 		b.Gossip = &NullGossip{}
@@ -215,6 +227,11 @@ func (b *Broker) Close() {
 		p.Close() // stops the peer's 5 ms ticker
 	}
 	b.Svc.VerifSwarm().VerifDetach() // the mesh router's goroutines cannot be stopped and would keep everything reachable
+}
+
+// Join makes the real mesh router connect to another broker's mesh port (Service.Join).
+func (b *Broker) Join(port int) []error {
+	return b.Svc.VerifSwarm().Join(fmt.Sprintf("127.0.0.1:%d", port))
 }
 
 // Key mints a key through the real keygen.CreateKey with the master key.
